@@ -5,9 +5,11 @@
 package main
 
 import (
+	"encoding/json"
 	"fmt"
 	"os"
 	"sort"
+	"strings"
 	"time"
 
 	"github.com/daeuniverse/dae/control"
@@ -21,13 +23,14 @@ func broken(f string, a ...any) {
 }
 
 type scenSpec struct {
-	side       int
-	v6, ext    bool
-	l2         bool
-	peer       bool
-	a, b       string
-	depth      int
-	rich       bool
+	side    int
+	v6, ext bool
+	l2      bool
+	peer    bool
+	short   bool
+	a, b    string
+	depth   int
+	rich    bool
 }
 
 func main() {
@@ -43,13 +46,13 @@ func main() {
 	if lay.ABI.Pointer != 8 || lay.ABI.Int != 4 || lay.ABI.LittleEndian != 1 {
 		broken("unexpected host ABI %+v", lay.ABI)
 	}
-	offConn, offHandoff, offRedirect, offPid = control.VerifC03LastSeenOffsets()
+	offConn, offHandoff, offRedirect, _ = control.VerifC03LastSeenOffsets()
 	handoffTimeoutNs = control.VerifC03HandoffTimeoutNs()
 	// the state key rewrites last-seen stamps at the offsets of the Go mirror structs; they must be where C has them
 	for _, chk := range []struct {
 		rec, field string
 		off        uintptr
-	}{{"struct conn_state", "last_seen_ns", offConn}, {"struct routing_handoff_entry", "last_seen_ns", offHandoff}, {"struct redirect_entry", "last_seen_ns", offRedirect}, {"struct pid_pname", "last_seen_ns", offPid}} {
+	}{{"struct conn_state", "last_seen_ns", offConn}, {"struct routing_handoff_entry", "last_seen_ns", offHandoff}, {"struct redirect_entry", "last_seen_ns", offRedirect}} {
 		rec := lay.Record(chk.rec)
 		ok := false
 		if rec != nil {
@@ -70,42 +73,14 @@ func main() {
 		broken("rule programs: %v", err)
 	}
 
-	var specs []scenSpec
-	if !r.Thorough() {
-		const d = 4
-		for _, side := range []int{sideLAN, sideWAN} {
-			specs = append(specs,
-				scenSpec{side: side, l2: true, a: "direct", b: "proxy", depth: d},
-				scenSpec{side: side, l2: true, a: "proxy", b: "block", depth: d},
-				scenSpec{side: side, l2: true, a: "dmark", b: "pmust", depth: d},
-				scenSpec{side: side, l2: true, a: "mustrules", b: "pmark", depth: d},
-			)
-		}
-		// one IPv6 (with extension headers) and one L3 scenario per side, shallower
-		for _, side := range []int{sideLAN, sideWAN} {
-			specs = append(specs,
-				scenSpec{side: side, v6: true, ext: true, l2: true, a: "proxy", b: "direct", depth: 3},
-				scenSpec{side: side, l2: false, a: "pmark", b: "direct", depth: 3},
-			)
-		}
-	} else {
-		pairs := [][2]string{{"direct", "proxy"}, {"proxy", "block"}, {"dmark", "pmust"}, {"mustrules", "pmark"}, {"block", "direct"}, {"pmust", "dmark"}, {"pmark", "mustrules"}, {"proxy", "direct"}}
-		for _, side := range []int{sideLAN, sideWAN} {
-			for i, p := range pairs {
-				// rich alphabet, both families, all IP variants, both link types; the deepest runs use the core pairs
-				specs = append(specs, scenSpec{side: side, l2: true, a: p[0], b: p[1], depth: 5, rich: true})
-				specs = append(specs, scenSpec{side: side, v6: true, l2: i%2 == 0, a: p[0], b: p[1], depth: 4, rich: true})
-				specs = append(specs, scenSpec{side: side, v6: true, ext: true, l2: i%2 == 1, a: p[0], b: p[1], depth: 4, rich: true})
-				specs = append(specs, scenSpec{side: side, l2: false, peer: i%2 == 0, a: p[0], b: p[1], depth: 4, rich: true})
-			}
-			specs = append(specs, scenSpec{side: side, l2: true, a: "direct", b: "proxy", depth: 6})
-			specs = append(specs, scenSpec{side: side, l2: true, a: "proxy", b: "block", depth: 6})
-			specs = append(specs, scenSpec{side: side, l2: true, peer: true, a: "pmark", b: "direct", depth: 5})
-		}
+	specs := specsFor(r.Thorough())
+	if r.ReplayArg != "" {
+		replay(r, progs, kdrv)
+		return
 	}
 
 	r.Rule("explicit-state BFS over event sequences executed on the real tproxy.c (engine K): per scenario (side LAN-ingress|WAN-egress x family v4|v6|v6+hop-by-hop+dstopts x L2|L3 x ordered pair of rule programs x bpf_redirect|bpf_redirect_peer) ALL sequences up to the scenario depth over the alphabet " +
-		"{frame(hook, flow, kind, variant), tick +2s|+11s|+121s (+10s|+120s), swap rule program, learn domain for the destination, flip health bit of g1 tcp|udp, conn_state_map full} are run, de-duplicated on (all map contents with last-seen stamps as exact ages saturated above the largest threshold that reads them, rule program, model state). " +
+		"{frame(hook, flow, kind, variant), tick +2s|+10s|+11s|+120s|+121s (+119s), swap rule program, learn domain for the destination, flip health bit of g1 tcp|udp, conn_state_map full} are run, de-duplicated on (contents of conn_state_map, routing_handoff_map, redirect_track with last-seen stamps as exact ages saturated above the largest threshold that reads them, rule program, domain entry, health bits, map-full flag, model state). " +
 		"Every frame is injected from the same snapshot once per header-parsing path (direct packet access / byte-load fallback; truncated frames additionally with a lenient pull) and both runs must give the same verdict and map state; every run is compared with the reference model of the statement; every redirect is followed into dae0peer ingress; every hand-over record is read back through bpfTuplesKeyFromAddrPorts + bpfConnState/bpfRoutingHandoffEntry + routingResultFromConnState + routingHandoffExpired. " +
 		"states = distinct (kernel state, model state) pairs; transitions = event applications; traces_validated_against_impl = transitions (each is the last step of a distinct event sequence executed on the C program)")
 	r.Assume("engine K: tproxy.c compiled natively and run under a helper/map shim: no verifier/JIT, one CPU (no races between hooks, publish_routing_meta ordering not exercised), bpf_redirect / bpf_redirect_peer / bpf_sk_assign are recorded, not performed; no kernel conntrack")
@@ -140,7 +115,11 @@ func main() {
 	perScenario := map[string]any{}
 	maxAlphabet := 0
 	for _, sp := range specs {
-		sc := buildScenario(progs, sp.side, sp.v6, sp.ext, sp.l2, sp.peer, sp.a, sp.b, sp.depth, sp.rich)
+		sc := buildScenario(progs, sp.side, sp.v6, sp.ext, sp.l2, sp.peer, sp.short, sp.a, sp.b, sp.depth, sp.rich)
+		if f := os.Getenv("C03_ONLY"); f != "" && !strings.Contains(sc.name, f) { // development aid: run a subset
+			r.CapHit("C03_ONLY set: scenario " + sc.name + " skipped")
+			continue
+		}
 		sc.warmDecisions()
 		if len(sc.events) > maxAlphabet {
 			maxAlphabet = len(sc.events)
@@ -223,4 +202,131 @@ func main() {
 	}
 	r.Sample(map[string]any{"example_sequence": "[LI.T.SYN, swap-rules, LI.T.ACK] : the ACK follows the decision taken for the SYN", "timeouts_s": []int{120, 10, 120}})
 	r.Finish()
+}
+
+func specsFor(thorough bool) []scenSpec {
+	var specs []scenSpec
+	if !thorough {
+		const d = 4
+		for _, side := range []int{sideLAN, sideWAN} {
+			specs = append(specs,
+				scenSpec{side: side, l2: true, a: "direct", b: "proxy", depth: d},
+				scenSpec{side: side, l2: true, a: "proxy", b: "block", depth: d},
+				scenSpec{side: side, l2: true, a: "dmark", b: "pmust", depth: d},
+				scenSpec{side: side, l2: true, a: "mustrules", b: "pmark", depth: d},
+			)
+		}
+		// IPv6 with extension headers, L3 link type, payload-less frames, bpf_redirect_peer: shallower
+		for _, side := range []int{sideLAN, sideWAN} {
+			specs = append(specs,
+				scenSpec{side: side, v6: true, ext: true, l2: true, a: "proxy", b: "direct", depth: 3},
+				scenSpec{side: side, l2: false, peer: true, a: "pmark", b: "direct", depth: 3},
+				scenSpec{side: side, v6: true, l2: true, short: true, a: "proxy", b: "dmark", depth: 3},
+			)
+		}
+	} else {
+		// most valuable first: the time budget may cut the tail (reported as caps_hit, exhaustive=false)
+		for _, side := range []int{sideLAN, sideWAN} {
+			specs = append(specs, scenSpec{side: side, l2: true, a: "direct", b: "proxy", depth: 5, rich: true})
+			specs = append(specs, scenSpec{side: side, l2: true, a: "pmark", b: "mustrules", depth: 5, rich: true})
+		}
+		for _, side := range []int{sideLAN, sideWAN} {
+			specs = append(specs, scenSpec{side: side, l2: true, a: "proxy", b: "block", depth: 6})
+		}
+		pairs := [][2]string{{"proxy", "block"}, {"dmark", "pmust"}, {"mustrules", "pmark"}, {"block", "direct"}, {"pmust", "dmark"}, {"proxy", "direct"}, {"direct", "proxy"}, {"pmark", "mustrules"}}
+		variants := []scenSpec{
+			{v6: true, l2: true},
+			{v6: true, ext: true, l2: false},
+			{l2: false, peer: true},
+			{v6: true, ext: true, l2: true, short: true},
+			{l2: true, short: true},
+			{v6: true, l2: false, peer: true},
+			{l2: true, peer: true},
+			{v6: true, ext: true, l2: true},
+		}
+		for i, p := range pairs {
+			for si, side := range []int{sideLAN, sideWAN} {
+				for _, off := range []int{0, 3} {
+					v := variants[(i+off+si)%len(variants)]
+					v.side, v.a, v.b, v.depth, v.rich = side, p[0], p[1], 4, true
+					specs = append(specs, v)
+				}
+			}
+		}
+	}
+	return specs
+}
+
+// replay re-runs one recorded violation: the state reached by the recorded sequence minus its last event is rebuilt on
+// the real C program and every event is tried from it; violations of the recorded sequence are printed.
+func replay(r *vlib.Run, progs []*ruleProgram, kdrv string) {
+	b, err := os.ReadFile(r.ReplayArg)
+	if err != nil {
+		broken("replay: %v", err)
+	}
+	var rec struct {
+		Detail struct {
+			Scenario string `json:"scenario"`
+			Sequence string `json:"sequence"`
+		} `json:"detail"`
+	}
+	if err := json.Unmarshal(b, &rec); err != nil || rec.Detail.Scenario == "" {
+		broken("replay: %s is not a C03 violation file", r.ReplayArg)
+	}
+	names := strings.Split(strings.Trim(rec.Detail.Sequence, "[]"), ", ")
+	for _, th := range []bool{false, true} {
+		for _, sp := range specsFor(th) {
+			sc := buildScenario(progs, sp.side, sp.v6, sp.ext, sp.l2, sp.peer, sp.short, sp.a, sp.b, sp.depth, sp.rich)
+			if sc.name != rec.Detail.Scenario {
+				continue
+			}
+			var path []uint16
+			ok := true
+			for _, nm := range names {
+				idx := -1
+				for i := range sc.events {
+					if sc.events[i].name == nm {
+						idx = i
+					}
+				}
+				if idx < 0 {
+					ok = false
+					break
+				}
+				path = append(path, uint16(idx))
+			}
+			if !ok {
+				continue
+			}
+			sc.warmDecisions()
+			k, err := startKdrv(kdrv)
+			if err != nil {
+				broken("%v", err)
+			}
+			e := &kenv{k: k, progs: progs}
+			x := &explorer{sc: sc, envs: []*kenv{e}}
+			e.boot(sc)
+			m := x.initialModel()
+			for _, p := range path[:len(path)-1] {
+				sc.step(m, &sc.events[p])
+			}
+			x.expand(e, &node{path: path[:len(path)-1], model: m})
+			k.close()
+			n := 0
+			for _, v := range x.viol {
+				if strings.Contains(v.sig, "seq="+rec.Detail.Sequence+":") {
+					fmt.Println("REPRODUCED:", v.sig)
+					d, _ := json.MarshalIndent(v.detail, "", " ")
+					fmt.Println(string(d))
+					n++
+				}
+			}
+			if n == 0 {
+				fmt.Println("not reproduced: the recorded sequence no longer violates the statement")
+				os.Exit(0)
+			}
+			os.Exit(1)
+		}
+	}
+	broken("replay: scenario %q / sequence %s not found", rec.Detail.Scenario, rec.Detail.Sequence)
 }
